@@ -10,6 +10,8 @@ package main
 
 import (
 	"fmt"
+	"go/constant"
+	"go/token"
 	"go/types"
 	"sort"
 	"strconv"
@@ -107,7 +109,7 @@ func (p *Program) emissionGrammar(fn *ssa.Function, writerParam int) (string, er
 			}
 		}
 	}
-	alts := e.from(fn.Blocks[0], nil, nil, 0)
+	alts := e.from(fn.Blocks[0], nil, nil, 0, nil, nil)
 	if e.err != nil {
 		return "", e.err
 	}
@@ -354,7 +356,7 @@ func replaceSubterms(t *Term, subst map[string]*Term) *Term {
 
 // from enumerates the emission sequences of the success paths starting at block b.
 // stop: blocks that end the walk (the header of the loop being summarised).
-func (e *emitter) from(b *ssa.BasicBlock, stop map[*ssa.BasicBlock]bool, subst map[string]*Term, depth int) [][]string {
+func (e *emitter) from(b *ssa.BasicBlock, stop map[*ssa.BasicBlock]bool, subst map[string]*Term, depth int, prev *ssa.BasicBlock, nn map[ssa.Value]bool) [][]string {
 	if e.err != nil {
 		return nil
 	}
@@ -367,12 +369,12 @@ func (e *emitter) from(b *ssa.BasicBlock, stop map[*ssa.BasicBlock]bool, subst m
 	}
 	// a loop header: summarise the loop, continue after it
 	if l := e.loops[b]; l != nil && !(stop != nil && stop[b]) {
-		return e.loop(b, l, stop, subst, depth)
+		return e.loop(b, l, stop, subst, depth, nn)
 	}
-	return e.block(b, stop, subst, depth)
+	return e.block(b, stop, subst, depth, prev, nn)
 }
 
-func (e *emitter) block(b *ssa.BasicBlock, stop map[*ssa.BasicBlock]bool, subst map[string]*Term, depth int) [][]string {
+func (e *emitter) block(b *ssa.BasicBlock, stop map[*ssa.BasicBlock]bool, subst map[string]*Term, depth int, prev *ssa.BasicBlock, nn map[ssa.Value]bool) [][]string {
 	var here []string
 	for _, in := range b.Instrs {
 		if e.p.callNoReturnCached(in) {
@@ -396,7 +398,8 @@ func (e *emitter) block(b *ssa.BasicBlock, stop map[*ssa.BasicBlock]bool, subst 
 		}
 	}
 	var out [][]string
-	for _, s := range e.p.feasibleSuccs(b) {
+	succs, learn := e.succsKnowing(b, prev, nn)
+	for k, s := range succs {
 		if !e.okRet[s] && !(stop != nil && stop[s]) && !e.reachesStop(s, stop) {
 			continue // only error returns lie that way
 		}
@@ -405,7 +408,15 @@ func (e *emitter) block(b *ssa.BasicBlock, stop map[*ssa.BasicBlock]bool, subst 
 			e.err = fmt.Errorf("too many emission paths")
 			return nil
 		}
-		for _, rest := range e.from(s, stop, subst, depth+1) {
+		nn2 := nn
+		if learn != nil && learn[k] != nil {
+			nn2 = map[ssa.Value]bool{}
+			for v := range nn {
+				nn2[v] = true
+			}
+			nn2[learn[k]] = true
+		}
+		for _, rest := range e.from(s, stop, subst, depth+1, b, nn2) {
 			seq := append(append([]string{}, here...), rest...)
 			out = append(out, seq)
 		}
@@ -435,19 +446,23 @@ func (e *emitter) reachesStop(from *ssa.BasicBlock, stop map[*ssa.BasicBlock]boo
 }
 
 // loop summarises the natural loop with header h.
-func (e *emitter) loop(h *ssa.BasicBlock, l *natLoop, stop map[*ssa.BasicBlock]bool, subst map[string]*Term, depth int) [][]string {
+func (e *emitter) loop(h *ssa.BasicBlock, l *natLoop, stop map[*ssa.BasicBlock]bool, subst map[string]*Term, depth int, nn map[ssa.Value]bool) [][]string {
 	// exits of the loop towards a success continuation
-	var exits []*ssa.BasicBlock
-	seenExit := map[*ssa.BasicBlock]bool{}
+	type exitEdge struct{ from, to *ssa.BasicBlock }
+	var exits []exitEdge
 	for b := range l.Blocks {
 		for _, s := range b.Succs {
-			if !l.Blocks[s] && !seenExit[s] && (e.okRet[s] || e.reachesStop(s, stop)) {
-				seenExit[s] = true
-				exits = append(exits, s)
+			if !l.Blocks[s] && (e.okRet[s] || e.reachesStop(s, stop)) {
+				exits = append(exits, exitEdge{b, s})
 			}
 		}
 	}
-	sort.Slice(exits, func(i, j int) bool { return exits[i].Index < exits[j].Index })
+	sort.Slice(exits, func(i, j int) bool {
+		if exits[i].to.Index != exits[j].to.Index {
+			return exits[i].to.Index < exits[j].to.Index
+		}
+		return exits[i].from.Index < exits[j].from.Index
+	})
 	// body alternatives: from the header's in-loop successor(s) back to the header
 	inner := map[*ssa.BasicBlock]bool{h: true}
 	var bodyAlts [][]string
@@ -456,7 +471,7 @@ func (e *emitter) loop(h *ssa.BasicBlock, l *natLoop, stop map[*ssa.BasicBlock]b
 		if !l.Blocks[s] {
 			continue
 		}
-		for _, a := range e.from(s, inner, subst, depth+1) {
+		for _, a := range e.from(s, inner, subst, depth+1, h, nn) {
 			bodyAlts = append(bodyAlts, append(append([]string{}, hdrItems...), a...))
 		}
 	}
@@ -500,10 +515,12 @@ func (e *emitter) loop(h *ssa.BasicBlock, l *natLoop, stop map[*ssa.BasicBlock]b
 				var alts [][]string
 				for _, s := range h.Succs {
 					if l.Blocks[s] {
-						alts = append(alts, e.from(s, inner, s2, depth+1)...)
+						alts = append(alts, e.from(s, inner, s2, depth+1, h, nn)...)
 					}
 				}
-				if r := render(alts); r != "" {
+				if len(alts) == 1 {
+					prefix = append(prefix, alts[0]...) // raw pieces: literals merge with their neighbours
+				} else if r := render(alts); r != "" {
 					prefix = append(prefix, r)
 				}
 			}
@@ -519,7 +536,7 @@ func (e *emitter) loop(h *ssa.BasicBlock, l *natLoop, stop map[*ssa.BasicBlock]b
 				bodyAlts = nil
 				for _, s := range h.Succs {
 					if l.Blocks[s] {
-						bodyAlts = append(bodyAlts, e.from(s, inner, s3, depth+1)...)
+						bodyAlts = append(bodyAlts, e.from(s, inner, s3, depth+1, h, nn)...)
 					}
 				}
 				over = short(restT.String())
@@ -532,7 +549,7 @@ func (e *emitter) loop(h *ssa.BasicBlock, l *natLoop, stop map[*ssa.BasicBlock]b
 	}
 	var out [][]string
 	for _, x := range exits {
-		for _, rest := range e.from(x, stop, subst, depth+1) {
+		for _, rest := range e.from(x.to, stop, subst, depth+1, x.from, nn) {
 			seq := append(append(append([]string{}, prefix...), star...), rest...)
 			out = append(out, seq)
 		}
@@ -554,4 +571,77 @@ func (e *emitter) headerItems(h *ssa.BasicBlock, subst map[string]*Term) []strin
 		}
 	}
 	return out
+}
+
+// succsKnowing: the successors of b that are feasible given the block we came from (which
+// fixes the Phis of b) and the values already known to be non-nil on this walk; learn[k] is a
+// value that is non-nil when successor k is taken.
+func (e *emitter) succsKnowing(b, prev *ssa.BasicBlock, nn map[ssa.Value]bool) ([]*ssa.BasicBlock, []ssa.Value) {
+	succs := e.p.feasibleSuccs(b)
+	if len(succs) != 2 || len(b.Succs) != 2 {
+		return succs, nil
+	}
+	ifi, ok := b.Instrs[len(b.Instrs)-1].(*ssa.If)
+	if !ok {
+		return succs, nil
+	}
+	c := ifi.Cond
+	neg := false
+	for {
+		if u, ok := c.(*ssa.UnOp); ok && u.Op == token.NOT {
+			c, neg = u.X, !neg
+			continue
+		}
+		break
+	}
+	resolve := func(v ssa.Value) ssa.Value {
+		for i := 0; i < 4; i++ {
+			ph, ok := v.(*ssa.Phi)
+			if !ok || ph.Block() != b || prev == nil {
+				return v
+			}
+			found := false
+			for k, pb := range b.Preds {
+				if pb == prev {
+					v, found = ph.Edges[k], true
+				}
+			}
+			if !found {
+				return v
+			}
+		}
+		return v
+	}
+	c = resolve(c)
+	if k, ok := c.(*ssa.Const); ok && k.Value != nil && k.Value.Kind() == constant.Bool {
+		if constant.BoolVal(k.Value) != neg {
+			return b.Succs[:1], nil
+		}
+		return b.Succs[1:], nil
+	}
+	bo, ok := c.(*ssa.BinOp)
+	if !ok || (bo.Op != token.EQL && bo.Op != token.NEQ) {
+		return succs, nil
+	}
+	x, y := bo.X, bo.Y
+	if isNilConst(x) {
+		x, y = y, x
+	}
+	if !isNilConst(y) {
+		return succs, nil
+	}
+	x = resolve(x)
+	nonNilEdge := 0 // successor index taken when x != nil
+	if (bo.Op == token.EQL) != neg {
+		nonNilEdge = 1
+	}
+	switch {
+	case isNilConst(x):
+		return b.Succs[1-nonNilEdge : 2-nonNilEdge], nil
+	case e.p.definitelyNonNil(x, 0) || nn[x] || nn[stripConv(x)] || (prev != nil && e.p.nonNilAt(x, prev)):
+		return b.Succs[nonNilEdge : nonNilEdge+1], nil
+	}
+	learn := make([]ssa.Value, 2)
+	learn[nonNilEdge] = x
+	return b.Succs, learn
 }
